@@ -300,6 +300,29 @@ def via_config(cls, cfg, x, NFFT, sampling, scale_by_freq, route):
     return p
 
 
+def class_vs_function(cls, x, cfg, NFFT=None):
+    """the parametric classes expose the model of their functional estimator: pburg(x, p, criteria) holds arburg(x, p, criteria),
+    pyule(x, p, norm) holds aryule(x, p, norm) - same number of coefficients, same values.  Returns [(what)]"""
+    import spectrum
+    x = np.asarray(x); bad = []
+    p = _construct(cls, x, cfg, NFFT); p()
+    if cls == 'pburg':
+        a, rho, k = spectrum.arburg(x, cfg['order'], cfg.get('criteria'))
+        want = {'ar': a, 'rho': rho, 'reflection': k}
+    elif cls == 'pyule':
+        a, rho, k = spectrum.aryule(x, cfg['order'], norm=cfg.get('norm', 'biased'))
+        want = {'ar': a, 'reflection': k}
+    else:
+        raise KeyError(cls)
+    for name, w in want.items():
+        g = np.atleast_1d(np.asarray(getattr(p, name))); w = np.atleast_1d(np.asarray(w))
+        if g.shape != w.shape:
+            bad.append('%s.%s has %d values, the functional estimator returns %d' % (cls, name, g.size, w.size))
+        elif g.size and np.max(np.abs(g - w)) > 1e-12 * max(1.0, float(np.max(np.abs(w)))):
+            bad.append('%s.%s differs from the functional estimator (max dev %.3g)' % (cls, name, float(np.max(np.abs(g - w)))))
+    return bad
+
+
 def route_consistency(make, x, NFFT, sampling, scale_by_freq, routes=None, rtol=1e-9, cls=None, cfg=None):
     """the estimate an object holds must not depend on HOW it came to hold its data and settings: every route of `via` against the freshly
     constructed object.  Returns [(route, what)].  (With this, a relation checked on fresh objects holds on every route.)"""
